@@ -63,16 +63,28 @@ pub fn eval_name(psl: &Psl, name: &str, compare: bool) -> (Vec<Finding>, &'stati
     (fs, class, nt)
 }
 
+fn via_bound<P: EffectiveTLDProvider>(p: &P, name: &str) -> Result<String, String> {
+    <P as EffectiveTLDProvider>::effective_tld_plus_one(p, name).map(|s| s.to_string()).map_err(|e| format!("{e:?}"))
+}
+fn via_object(p: &dyn EffectiveTLDProvider, name: &str) -> Result<String, String> {
+    p.effective_tld_plus_one(name).map(|s| s.to_string()).map_err(|e| format!("{e:?}"))
+}
+
 fn eval_name_inner(psl: &Psl, name: &str, compare: bool) -> (Vec<Finding>, &'static str, bool) {
     let mut fs = vec![];
     let case = json!({ "name": name });
     let r = par::catch(|| {
         let ps = DEFAULT_PROVIDER.public_suffix(name).to_string();
-        let e1 = DEFAULT_PROVIDER.effective_tld_plus_one(name).map(|s| s.to_string()).map_err(|e| format!("{e:?}"));
+        // the three ways a caller reaches the lookup: method syntax on the concrete provider (an
+        // inherent method would win here), the trait through a generic bound (how RpIdVerifier
+        // calls it), and the trait through a trait object
+        let e1m = DEFAULT_PROVIDER.effective_tld_plus_one(name).map(|s| s.to_string()).map_err(|e| format!("{e:?}"));
+        let e1 = via_bound(&DEFAULT_PROVIDER, name);
+        let e1d = via_object(&DEFAULT_PROVIDER, name);
         let tld = DEFAULT_PROVIDER.is_effective_tld(name);
-        (ps, e1, tld)
+        (ps, e1, tld, e1m, e1d)
     });
-    let (ps, e1, tld) = match r {
+    let (ps, e1, tld, e1m, e1d) = match r {
         Ok(x) => x,
         Err(p) => {
             fs.push(Finding::new(format!("kind=panic/site={}", par::panic_site(&p)), format!("lookup of {name:?} panicked: {p}"), case));
@@ -80,6 +92,9 @@ fn eval_name_inner(psl: &Psl, name: &str, compare: bool) -> (Vec<Finding>, &'sta
         }
     };
     let mut bad = |kind: &str, d: String| fs.push(Finding::new(format!("kind={kind}"), d, case.clone()));
+    if e1m != e1 || e1d != e1 {
+        bad("call-routes-disagree", format!("effective_tld_plus_one({name:?}): through a generic bound {e1:?}, method syntax {e1m:?}, trait object {e1d:?}"));
+    }
     if !is_boundary_suffix(name, &ps) {
         bad("suffix-not-at-label-boundary", format!("public_suffix({name:?}) = {ps:?}"));
     }
@@ -251,7 +266,7 @@ fn second_table(psl: &Psl, tiny_ref: &Psl, names: &[String], before: &[String], 
         }
         let case = json!({"tiny_table": {"name": n, "default_lookups_before": before}});
         st.case(&(n, before), true, "second-table");
-        let r = par::catch(|| (TINY.public_suffix(n).to_string(), TINY.effective_tld_plus_one(n).map(|s| s.to_string()).map_err(|e| format!("{e:?}")), TINY.is_effective_tld(n)));
+        let r = par::catch(|| (TINY.public_suffix(n).to_string(), via_bound(&TINY, n), TINY.is_effective_tld(n)));
         match r {
             Err(p) => st.finding(Finding::new(format!("second-table/kind=panic/site={}", par::panic_site(&p)), format!("lookup of {n:?} through a second table panicked (after default-table lookups {before:?}): {p}"), case)),
             Ok((ps, e1, _tld)) => {
@@ -490,6 +505,14 @@ pub fn run(ctx: &Ctx) -> Result<Run, String> {
                 odd.push(format!("{}{sep}{}", &n[..d], &n[d + 1..]));
             }
         }
+    }
+    // root dots and other empty labels around a sample of rule-derived names
+    for n in names.iter().step_by(5) {
+        odd.push(format!("{n}."));
+        odd.push(format!("{n}.."));
+        odd.push(format!(".{n}"));
+        odd.push(format!("www.{n}."));
+        odd.push(format!("www..{n}"));
     }
     // case variants: the lookup is byte-wise (callers pass lower case); a label that differs from a
     // rule's label in letter case is simply another label.  Every rule body with one label at a
